@@ -125,6 +125,17 @@ def compare(st, case, what, build, sig):
         if snap(sym) != before:
             v("subs-mutates", "subs changed the symbolic original", c)
             before = snap(sym)
+        if c == CS[0] and not diff:
+            # the other calling conventions of sympy's subs (the docstring promises the same parameters): (old, new) and an iterable of pairs
+            for fname, fargs in (("subs(symbol, c)", (s, c)), ("subs([(symbol, c)])", ([(s, c)],)), ("subs(((symbol, c),))", (((s, c),),))):
+                st.transitions += 1
+                alt, _w = call(sym.subs, *fargs)
+                if isinstance(alt, Raised):
+                    v("subs-form-raises-" + alt.kind, "%s raised %r" % (fname, alt.exc), c)
+                else:
+                    d2 = same_model(alt, num)
+                    if d2:
+                        v("subs-form-differs", "%s differs from subs({symbol: c}) / the numeric build: %s" % (fname, d2), c)
         # subs on a model without any symbol left must also return an independent, equal model
         if c == CS[0] and not isinstance(num, Raised):
             nb = snap(num)
